@@ -23,7 +23,7 @@ template <class G> struct C17 {
     std::vector<lat::TAtom> ts = lat::tangents(g, cfg, lat::TINY, 2.0L);
     ref::Vec d1 = ts[ts.size() / 2].t, d2 = ts[ts.size() / 3].t;
     // keep steps moderate
-    auto shrink = [](ref::Vec v) { ref::Real m = v.cwiseAbs().maxCoeff(); if (m > 0.4L) v *= 0.4L / m; return v; };
+    auto shrink = [](ref::Vec v) { ref::Real m = vf::maxabs(v); if (m > 0.4L) v *= 0.4L / m; return v; };
     d1 = shrink(d1); d2 = shrink(-d2);
     if (d1.norm() == 0) d1 = ref::Vec::Constant(g.DoF, 0.1L);
     if (d2.norm() == 0) d2 = ref::Vec::Constant(g.DoF, -0.07L);
